@@ -5,9 +5,21 @@ import vf
 
 def main():
     specs = []
-    import props
+    import props, json
+    claimed = None
+    try:
+        with open(os.path.join(vf.VERIF, "MANIFEST.json")) as fh:
+            claimed = {c["property_id"].lower() for c in json.load(fh)["checks"]}
+    except Exception:
+        pass
     for m in pkgutil.iter_modules(props.__path__):
-        mod = importlib.import_module("props." + m.name)
+        if claimed is not None and m.name not in claimed:
+            continue   # only pre-build what MANIFEST.json registers
+        try:
+            mod = importlib.import_module("props." + m.name)
+        except Exception as e:
+            print(f"[setup] cannot import props.{m.name}: {e}", file=sys.stderr)
+            continue
         for s in getattr(mod, "BUILDS", []):
             if s not in specs:
                 specs.append(s)
